@@ -36,6 +36,10 @@ def run(prog, R, tier="quick", only_rule=None):
     # ingested blobs carry seqno 0 in their frames: relocation must not rely on the frame seqno order (finding F12)
     from rules.props import c08
     c08.c08j(prog, R, rid="C14.f")
+    # the ingested entries survive reopen with their seqno offset, in whatever level a trivial move has put the table
+    from rules.props import c04
+    c04.c04h(prog, R, rid="C14.g")
+    c14h(prog, R)
 
 
 def finishers(prog):
@@ -251,3 +255,42 @@ def c14d(prog, R):
             r.check(ok, "%s|%s => upgrade_version_with_seqno" % (f.path, short(p.sres)),
                     "the version is published although a writer's finish (sync) did not succeed: " + why, f.where(ups[0].bb), why)
     r.floor(3)
+
+
+def c14h(prog, R, rid="C14.h"):
+    """`all of its entries (values and tombstones)`: what the caller hands to write / write_tombstone / write_weak_tombstone
+    reaches the table writer with that value type, through every wrapper (AnyIngestion, BlobIngestion)."""
+    from rules.engine import origins
+    r = R.rule(rid, "ingestion entry points keep the value type through every wrapper", "G,D")
+    base = {"write": "Value", "write_tombstone": "Tombstone", "write_weak_tombstone": "WeakTombstone"}
+    for m, vt in base.items():
+        f = prog.fn("tree::ingest::Ingestion::%s" % m)
+        if f is None:
+            r.anchor_missing("tree::ingest::Ingestion::%s" % m)
+            continue
+        got = set()
+        for c in f.calls:
+            if c.sres.endswith("InternalValue::from_components") and len(c.args) >= 4:
+                for o in origins(f, c.args[3]):
+                    if o.kind == "agg":
+                        got.add(str(o.extra.get("variant")))
+                    elif o.kind == "const":
+                        got.add(str(o.what).split("::")[-1])
+        r.check(got == {vt}, "tree::ingest::Ingestion::%s|writes ValueType::%s" % (m, vt),
+                "Ingestion::%s writes entries of type %s" % (m, sorted(got)), f.where(), str(sorted(got)))
+    INNER = ("write", "write_tombstone", "write_weak_tombstone", "write_indirection")
+    n = 0
+    for p, f in sorted(prog.fns.items()):
+        if not (p.startswith("blob_tree::ingest::BlobIngestion") or p.startswith("ingestion::AnyIngestion")):
+            continue
+        m = p.split("::")[-1]
+        if m not in ("write_tombstone", "write_weak_tombstone"):
+            continue
+        n += 1
+        called = {c.sres.split("::")[-1] for c in f.calls if c.local and c.sres.split("::")[-1] in INNER and "ngestion" in c.sres}
+        r.check(called == {m}, "%s|delegates to %s of the wrapped ingestion" % (p, m),
+                "%s forwards to %s: the entry is written with another value type than the caller asked for" % (p, sorted(called)),
+                f.where(), str(sorted(called)))
+    if n < 4:
+        r.anchor_missing("tombstone wrappers of BlobIngestion / AnyIngestion (found %d, confirmed 4)" % n)
+    r.floor(7)
